@@ -3,7 +3,7 @@ import os, sys, json, subprocess, shutil, tempfile, hashlib
 
 ROOT = os.path.dirname(os.path.dirname(os.path.dirname(os.path.abspath(__file__))))
 BINS = os.environ.get("VERIF_TOOLS_BINS", os.path.join(ROOT, "harness", "target-bins", "debug"))   # override: scratch builds of seeded trees
-VH = os.path.join(ROOT, "harness", "target", "debug", "vh-tools")
+VH = os.environ.get("VERIF_TOOLS_VH", os.path.join(ROOT, "harness", "target", "debug", "vh-tools"))   # override: helper built against a seeded scratch tree
 VDRIVER = os.environ.get("VDRIVER", os.path.join(ROOT, "lean", ".lake", "build", "bin", "vdriver"))
 M64 = (1 << 64) - 1
 
